@@ -549,6 +549,27 @@ func init() {
 			if i%311 == 0 {
 				sample(map[string]interface{}{"expr": show(k.Expr), "allowed": k.Allowed})
 			}
+			if i%4 == 0 && len(k.Allowed) >= 1 {
+				// the SAME slice, edited in place between two calls: the answer must be that of the list's contents, not of
+				// anything remembered about the slice (the fresh-process echo re-computes both calls from their contents)
+				l := append([]string{}, k.Allowed...)
+				implSat(k.Expr, l)
+				j := rng.Intn(len(l))
+				l[j] = c.terms[rng.Intn(len(c.terms))].text
+				if rng.Intn(2) == 0 {
+					l[j] = genValidTerm().text
+				}
+				r2 := implSat(k.Expr, l)
+				implSat("MIT", []string{"ISC", "Zlib"}) // an unrelated call in between
+				r3 := implSat(k.Expr, append([]string{}, l...))
+				count("in_place_edits")
+				if r2.String() != r3.String() {
+					kk := *k
+					kk.Allowed = l
+					kk.Extra = map[string]string{"variant": "in-place edit", "first_list": hxl(k.Allowed), "edited_index": itoa(j)}
+					fail(failure{Stream: "oracle", What: "after an in-place edit of the allowed slice between two calls, Satisfies answers differently for that slice and for a fresh copy with the same contents", Case: &kk, Impl: r2.String(), Expected: r3.String()})
+				}
+			}
 			if (thorough() || i%20 == 0) && len(k.Allowed) <= scale(4, 5) {
 				base := implSat(k.Expr, k.Allowed)
 				for _, p := range allPermutations(k.Allowed) {
